@@ -80,6 +80,43 @@ impl BitFieldQueue {
                 final(self).amt.view().contains((e, v)) <==> old(self).amt.view().contains((e, v)) || (e == bfq_quant(old(self).quant, raw_epoch) && values@.contains(v)),
     { unimplemented!() }
 }
+/// ADDED: termination.rs TerminationResult { sectors: BTreeMap<ChainEpoch, BitField>, partitions_processed, sectors_processed } — the map is opaque here
+#[verifier::external_body]
+pub struct TermSectors { inner: Box<u8> }
+pub struct TerminationResult { pub sectors: TermSectors, pub partitions_processed: u64, pub sectors_processed: u64 }
+impl TerminationResult {
+    /// `Default::default()`
+    #[verifier::external_body]
+    pub fn new() -> (r: TerminationResult) ensures r.partitions_processed == 0, r.sectors_processed == 0 { unimplemented!() }
+}
+impl vstd::std_specs::ops::AddAssignSpecImpl<TerminationResult> for TerminationResult {
+    open spec fn obeys_add_assign_spec() -> bool { false }
+    open spec fn add_assign_req(&self, rhs: TerminationResult) -> bool { true }
+    uninterp spec fn add_assign_spec(&self, rhs: TerminationResult) -> &TerminationResult;
+}
+impl AddAssign<TerminationResult> for TerminationResult {
+    /// termination.rs: both counters are added (`+=` on u64: the call does not return normally on overflow), the sector maps are merged
+    #[verifier::external_body]
+    fn add_assign(&mut self, rhs: TerminationResult)
+        ensures
+            old(self).partitions_processed + rhs.partitions_processed <= u64::MAX ==> final(self).partitions_processed == old(self).partitions_processed + rhs.partitions_processed,
+            old(self).sectors_processed + rhs.sectors_processed <= u64::MAX ==> final(self).sectors_processed == old(self).sectors_processed + rhs.sectors_processed,
+    { unimplemented!() }
+}
+/// ADDED: "the partition's early-termination queue (AMT behind `early_terminated`) is not empty" — a function of that root
+pub uninterp spec fn et_pending(early_terminated: Cid) -> bool;
+impl Partition {
+    /// ADDED, ASSUMED (partition_state.rs Partition::pop_early_terminations, ~60 lines over the early-termination BitFieldQueue, not under contract):
+    /// pops up to max_sectors sectors from the partition's early-termination queue. Only the queue root moves; the result counts ONE partition and
+    /// at most max_sectors sectors (each callback adds min(limit, count) with limit = max_sectors - processed and stops at the limit); the flag
+    /// is `early_terminated_queue.amt.count() > 0` after the flush.
+    #[verifier::external_body]
+    pub fn pop_early_terminations<BS: Blockstore>(&mut self, store: &BS, max_sectors: u64) -> (r: anyhow::Result<(TerminationResult, bool)>)
+        ensures
+            *final(self) == (Partition { early_terminated: final(self).early_terminated, ..*old(self) }),
+            r.is_ok() ==> r->Ok_0.0.partitions_processed == 1 && r->Ok_0.0.sectors_processed <= max_sectors && r->Ok_0.1 == et_pending(final(self).early_terminated),
+    { unimplemented!() }
+}
 #[verifier::external_body]
 pub fn select_sectors(sectors: &[SectorOnChainInfo], field: &BitField) -> (r: anyhow::Result<Vec<SectorOnChainInfo>>) { unimplemented!() }
 #[verifier::external_body]
